@@ -39,7 +39,10 @@ USED = (
     "after re-configuration, eleven or more coordinate arrays, unstable sorts of ties, DEFAULT arguments changed on one path, extremes of "
     "parameter domains (k = n, balancing = 1, degree 0, Poisson -1, one window / one point per block), broadcastable query shapes, 2-D "
     "queries that are grid-like only on the border, block totals of exactly zero, dask-backed grids, drifting non-meshgrids, repeated "
-    "extra-coordinate values, negative zero, scorer objects, shared dask keys, non-seekable file objects"
+    "extra-coordinate values, negative zero, scorer objects, shared dask keys, non-seekable file objects, precision narrowed where it only "
+    "matters beyond a magnitude (float32 kd-tree / features / jacobian dtype, 12-digit text round trips, int8 / int16 promotion), tolerances "
+    "relative to the wrong quantity, options documented as ignored being consulted, read-only arrays, per-component zero weights, 3-D / "
+    "4-D query arrays, class-level state shared between instances, invalid bounds at the other end, mismatched ignored extra coordinates"
 )
 
 IDEAS = (
